@@ -50,7 +50,7 @@ package silence
 // on success a fresh map of fresh, well-formed silences stored under their own id.
 //@ uf isEOF(error) bool
 //@ func decodeState
-//@   props C09 C11
+//@   props C09 C11 C12 C02
 //@   assumes ErrInvalidState != nil
 //@   ensures [silences-well-formed-and-filed-under-their-id] result1 == nil ==> result0 != nil && fresh(result0) && (forall k string :: k in result0 ==> wfSil(result0[k]) && result0[k].Silence.Id == k && fresh(result0[k]) && fresh(result0[k].Silence))
 //@   ensures [error-yields-no-state] result1 != nil ==> result0 == nil
@@ -147,7 +147,7 @@ package silence
 // indexed gets a NEW version at the end of the version index (its old entry is removed) and its matchers are
 // recompiled, so every cache entry - whose version is at most the old store version - sees it as "newer".
 //@ func (*Silences).reindexSilence
-//@   props C02 C09
+//@   props C02 C09 C13
 //@   requires s != nil && s.mi != nil && sil != nil && s.metrics != nil && s.metrics.matcherCompileIndexSilenceErrorsTotal != nil && s.logger != nil
 //@   ensures [version] s.version == old(s.version) + 1
 //@   ensures [moved-to-the-end] len(s.vi) >= 1 && s.vi[len(s.vi) - 1].id == sil.Id && s.vi[len(s.vi) - 1].version == s.version
